@@ -37,7 +37,8 @@ RULE = ('case = one seeded history (config + PRNG seed => decision list). Exhaus
         'distinct by (backend, per-message outcome-shape, pool config)')
 ASSUMPTIONS = ['two Queue objects over one storage (two processes) are outside C03',
                'replay of a history on disk/redis backends may order real I/O completions differently']
-REQUIRED_HITS = ['attempt-outcomes-observed', 'histories-judged', 'second-round-attempts',
+REQUIRED_HITS = ['attempt-outcomes-observed', 'histories-judged', 'second-round-attempts', 'real-relay-histories',
+                 'real-relay-final-failures-observed',
                  'third-marking-round-attempts', 'short-sequence-partial-rounds', 'long-sequence-partial-rounds',
                  'duplicate-address-partial-rounds']
 SHARDS = {'quick': 12, 'thorough': 16}
@@ -157,12 +158,31 @@ def gen_cases(tier, seed, shard, nshards):
             yield {'cfg': cfg, 'seed': rnd.randrange(1 << 40)}
 
 
+    # ---- the real SMTP / LMTP / HTTP relays (with their connection pools) behind the probe, against scripted next
+    # hops: what the Queue must not re-attempt is what the *real* relay classes reported as final (their own
+    # exception hierarchy decides which branch of the Queue handles a failure)
+    nreal = (150 if tier == 'quick' else 6000) // nshards
+    for i in range(max(1, nreal)):
+        cfg = {'backend': rnd.choice(['dict', 'dict', 'disk', 'cloud', 'redis']), 'stratum': 'real',
+               'real_relay': rnd.choice(['smtp', 'lmtp', 'http']),
+               'backoffs': rnd.choice([[0, 0, None], [0, 3, 0, None], [2, 2, 2, None]]),
+               'rcpts': (1, 4), 'nmsg': rnd.randint(1, 3), 'null_sender_p': 0.2,
+               'down_profile': ['ok', 'mail5', 'mail5', 'mail4', 'rcptmix', 'rcptmix', 'data5', 'data4', 'eod5', 'eod4',
+                                'eodmix', 'close'],
+               'relay_idle': rnd.choice([None, 0.5]), 'relay_pool_size': rnd.choice([None, 1, 2]), 'steps': 24}
+        yield {'cfg': cfg, 'seed': rnd.randrange(1 << 40)}
+
+
 def _hits(lab, H, R):
     per = {}
     for e in lab.events:
         if e[1] == 'attempt_start':
             per[e[2]] = per.get(e[2], 0) + 1
     R.hit('second-round-attempts', sum(1 for v in per.values() if v >= 2))
+    if lab.cfg.get('real_relay'):
+        R.hit('real-relay-histories')
+        R.hit('real-relay-final-failures-observed', sum(1 for e in lab.events if e[1] == 'attempt_end'
+                                                        for c, _ in e[5].values() if c == 'P'))
     # attempts that follow >= 2 delivered-marking calls of their message
     marks = {}
     third = short = long_ = dup = 0
